@@ -12,6 +12,11 @@ import json, subprocess, sys, os, shutil, tempfile, threading, queue
 V = os.path.dirname(os.path.dirname(os.path.abspath(__file__)))
 REPO = os.environ.get('VERIF_REPO', '/repo')
 muts = json.load(open(os.path.join(V, 'selftest/mutants.json')))
+# obligations that fail on the unchanged tree (open known findings) do not count as a detection
+try:
+    KNOWN_OPEN = {k['obligation'] for k in json.load(open(os.path.join(V, 'known_findings.json')))['findings'] if k.get('status') == 'open'}
+except Exception:
+    KNOWN_OPEN = set()
 args = sys.argv[1:]
 jsonout = None
 jobs = 3
@@ -53,7 +58,8 @@ def run_one(m, repo):
             return {"id": m['id'], "result": "invalid", "line": "%-32s INVALID  the mutant does not compile: %s" % (m['id'], out.strip().splitlines()[-1][:100])}
         failing = [l.split()[3] if l.startswith('failed') and 'structural' not in l else (l.split()[2] if not l.startswith('translate') else 'translation')
                    for l in out.splitlines() if l.startswith(('failed', 'unknown  ', 'unknown ', 'translate:')) and 'unknown call' not in l]
-        detected = r.returncode != 0 and ('not discharged' in out or 'translate:' in out)
+        failing = [f for f in failing if f not in KNOWN_OPEN]
+        detected = r.returncode != 0 and (len(failing) > 0 or 'translate:' in out)
         return {"id": m['id'], "function": m['func'], "result": "detected" if detected else "missed", "failed_obligations": failing[:3], "note": m.get('note', ''),
                 "line": "%-32s %s %s" % (m['id'], 'DETECTED' if detected else 'MISSED  ', ' '.join(failing[:2])[:110])}
     finally:
